@@ -44,6 +44,16 @@ def seqBest : List Trial → Option Trial
   | [] => none
   | t :: ts => some (ts.foldl (fun prev c => if keyLt prev c then prev else c) t)
 
+/-- The fast path's hand-off between evaluators (lib.rs `perform_trials`): the winner of the second
+    evaluator replaces the result already in hand only if its key is strictly smaller (the size limit
+    given to the second evaluator bounds the IDAT stream alone, so its trials can complete and still be
+    larger overall). -/
+def handoff (prev new : Option Trial) : Option Trial :=
+  match prev, new with
+  | some p, some n => if keyLt n p then some n else some p
+  | none, n => n
+  | some p, none => some p
+
 /-! ## The shared bound (`AtomicMin`) -/
 
 /-- `none` = no bound (`usize::MAX` inside `AtomicMin`). -/
